@@ -48,10 +48,10 @@ func walkReal(x any, depth int, info *rvInfo) *nfNode {
 		info.leafSeq = append(info.leafSeq, "nil")
 		return &nfNode{kind: "leaf", label: "nil"}
 	}
-	if s, ok := stackage.ConvertStack(x); ok && s.IsInit() {
+	if s, ok := unwrapStack(x); ok && s.IsInit() {
 		info.nodes++
 		id := normIdent(s)
-		n := &nfNode{kind: "stack", label: s.Kind(), paren: s.IsParen(), not: strings.EqualFold(s.Kind(), "NOT")}
+		n := &nfNode{kind: "stack", label: s.Kind(), paren: rawParen(s), not: strings.EqualFold(s.Kind(), "NOT")}
 		rs := rvStack{paren: n.paren, not: n.not, n: s.Len(), depth: depth}
 		for i := 0; i < s.Len(); i++ {
 			v, _ := s.Index(i)
@@ -71,19 +71,26 @@ func walkReal(x any, depth int, info *rvInfo) *nfNode {
 		info.stacks[id] = rs
 		return n
 	}
-	if c, ok := stackage.ConvertCondition(x); ok && c.IsInit() {
+	if c, ok := unwrapCond(x); ok && c.IsInit() {
 		info.nodes++
 		op := "<nil>"
 		if c.Operator() != nil {
 			op = c.Operator().String()
 		}
 		info.leafSeq = append(info.leafSeq, fmt.Sprintf("cond(%q %s)", c.Keyword(), op))
-		n := &nfNode{kind: "cond", label: fmt.Sprintf("%q %s", c.Keyword(), op), paren: c.IsParen()}
+		n := &nfNode{kind: "cond", label: fmt.Sprintf("%q %s", c.Keyword(), op), paren: rawParen(c)}
 		n.children = []*nfNode{walkReal(c.Expression(), depth+1, info)}
 		return n
 	}
 	info.leafSeq = append(info.leafSeq, fmt.Sprintf("%T:%v", x, x))
 	return &nfNode{kind: "leaf", label: fmt.Sprintf("%T:%v", x, x)}
+}
+
+// rawParen reads the parenthetical option bit from the configuration record (VerifDump): what
+// Reveal must respect is the option as set, whatever IsParen() chooses to report.
+func rawParen(x any) bool {
+	opt, _ := cfgOf(stackage.VerifDump(x))["opt"].(uint16)
+	return int(opt)&bParen != 0
 }
 
 func eligibleWrapper(n *nfNode) bool {
@@ -333,6 +340,7 @@ func genC20(t *rapid.T, tier Tier) C20Case {
 			n.Elems = append(n.Elems[:at:at], append(ins, n.Elems[at:]...)...)
 		}
 		n.NoNest = rapid.IntRange(0, 5).Draw(t, "nonest-after") == 0
+		n.PresPol = rapid.IntRange(0, 4).Draw(t, "prespol") == 0 // how a stack presents itself has no say in what Reveal may unwrap
 		return n
 	}
 	root := genStack(0)
